@@ -737,6 +737,11 @@ LIBM_STUB = {'sin', 'sinf', 'cos', 'cosf', 'tan', 'tanf', 'asin', 'asinf', 'acos
              'llvm.pow.f32', 'llvm.pow.f64'}
 
 
+# std::ostream inserters (members `_ZNSolsE<t>` for arithmetic types, free functions for char / C strings)
+OSTREAM_INSERTER = re.compile(r'^(?:_ZNSolsE([bsitjlmxyfde])|_ZStlsISt11char_traitsIcEERSt13basic_ostreamIcT_ES5_(c|a|h|PKc|PKa|PKh))$')
+OSTREAM_KINDS = {k: i + 1 for i, k in enumerate(['b', 's', 't', 'i', 'j', 'l', 'm', 'x', 'y', 'f', 'd', 'e', 'c', 'a', 'h', 'PKc', 'PKa', 'PKh'])}
+
+
 class Emitter:
     def __init__(s, mod, wrap_check_default=False, srcroot='/repo/'):
         s.mod = mod
@@ -765,6 +770,8 @@ class Emitter:
         if isinstance(t, PtrT):
             if isinstance(t.e, FuncT): return 'void*'
             if isinstance(t.e, OpaqueT): return 'void*'
+            if isinstance(t.e, NamedT) and t.e.n.startswith(('class.std::basic_ostream', 'class.std::basic_ios', 'class.std::ios_base')):
+                return 'void*'      # iostream objects are opaque here: only the recorder stubs below ever receive them
             return s.cty(t.e) + '*'
         if isinstance(t, NamedT):
             return 'struct ' + s.sname(t)
@@ -1425,6 +1432,22 @@ class Emitter:
                     elif cn in LIBM_STUB:
                         s.stubs_used.add(cn)
                         cf = 'll2c_stub_' + san(cn)
+                    elif OSTREAM_INSERTER.match(cn):
+                        # trusted recorder stub: which inserter overload was called, with which scalar / C string; the stream itself is not modelled
+                        kind = OSTREAM_INSERTER.match(cn).group(1) or OSTREAM_INSERTER.match(cn).group(2)
+                        s.io_used = getattr(s, 'io_used', set()); s.io_used.add(kind)
+                        argt = args[1][0]
+                        if isinstance(argt, PtrT):
+                            code.append('ll2c_io_record_ptr(%d, %s);' % (OSTREAM_KINDS[kind], al[1]))
+                        elif isinstance(argt, FpT):
+                            code.append('ll2c_io_record_fp(%d, (double)%s);' % (OSTREAM_KINDS[kind], al[1]))
+                        else:
+                            sg = kind in ('i', 'l', 'x', 's', 'a', 'c')
+                            code.append('ll2c_io_record_int(%d, (int64_t)%s%s);' % (OSTREAM_KINDS[kind], '(%s)' % SX[argt.w] if sg and argt.w > 1 else '', al[1]))
+                        if dst is not None:
+                            d = decl(dst, rt)
+                            code.append('%s = %s;' % (d, al[0]))
+                        continue
                     elif cn in mod.funcs:
                         cf = s.fname(cn); calls.add(cn)
                         if cn == fn and contract is not None and contract.get('recursive_stub'):
@@ -1508,6 +1531,12 @@ static inline float ll2c_bits_f32(uint32_t b) { union { uint32_t i; float f; } u
 static inline double ll2c_bits_f64(uint64_t b) { union { uint64_t i; double f; } u; u.i = b; return u.f; }
 static inline uint32_t ll2c_f32_bits(float f) { union { uint32_t i; float f; } u; u.f = f; return u.i; }
 static inline uint64_t ll2c_f64_bits(double f) { union { uint64_t i; double f; } u; u.f = f; return u.i; }
+/* ghost log of std::ostream insertions (recorder stubs; the stream itself is not modelled) */
+#define LL2C_IO_MAX 8
+static int ll2c_io_n; static int ll2c_io_kind[LL2C_IO_MAX]; static int64_t ll2c_io_int[LL2C_IO_MAX]; static double ll2c_io_fp[LL2C_IO_MAX]; static const char *ll2c_io_ptr[LL2C_IO_MAX];
+static inline void ll2c_io_record_int(int k, int64_t v) { if (ll2c_io_n < LL2C_IO_MAX) { ll2c_io_kind[ll2c_io_n] = k; ll2c_io_int[ll2c_io_n] = v; } ll2c_io_n++; }
+static inline void ll2c_io_record_fp(int k, double v) { if (ll2c_io_n < LL2C_IO_MAX) { ll2c_io_kind[ll2c_io_n] = k; ll2c_io_fp[ll2c_io_n] = v; } ll2c_io_n++; }
+static inline void ll2c_io_record_ptr(int k, const void *p) { if (ll2c_io_n < LL2C_IO_MAX) { ll2c_io_kind[ll2c_io_n] = k; ll2c_io_ptr[ll2c_io_n] = (const char *)p; } ll2c_io_n++; }
 '''
 
 
